@@ -5,9 +5,15 @@ C15 as an executable judge, written from the property statement: it keeps its ow
 a history, which refresh requests must have been queued.
 
 The statement quantifies over request kinds and codes unknown to the library.  A version entry
-for a *known response/message* code is outside it; the judge stops constraining a history at
-the first such entry that would need a refresh (what the code does there — the callback
-raises — is tied by the correspondence, not claimed by the statement).
+for a *known response/message* code is outside it; at the first such entry that would need a
+refresh the judge follows what the code is disclosed to do there (the callback raises: the rest
+of THAT announcement queues and records nothing) and goes on judging the rest of the history
+from the record as it stood at that entry.
+
+`expected` is a transcription of the model's `process` in the statement's vocabulary (own record
+per kind, "request kind" / "unknown" / "foreign" instead of `known` / `creatable`);
+`Props/C15.lean: expected_process` proves the two agree, so the judge adds no independent content
+beyond the reading of the statement — it is what is applied to the IMPLEMENTATION's queue.
 -/
 namespace PlumVerif.C15
 
@@ -36,14 +42,14 @@ def expected (j : Judge) : List Entry → List Nat × Judge × Bool
     else expected j r              -- unchanged version or unsupported kind: nothing
 
 /-- judge a history: events paired with the request kinds observed on the device queue after
-each; `true` when every observation is what the statement prescribes (up to a foreign entry) -/
+each; `true` when every observation is what the statement prescribes (an announcement is cut
+short at a foreign entry, the history goes on) -/
 def judge (j : Judge) : List (Ev × List Nat) → Bool
   | [] => true
   | (.errors ks, obs) :: r => obs.isEmpty && judge { j with unsupported := ks } r
   | (.announce w, obs) :: r =>
     match expected j (dictOf w) with
-    | (q, j', true) => obs == q && judge j' r
-    | (q, _, false) => q.isPrefixOf obs    -- beyond the statement: only the justified prefix is required
+    | (q, j', _) => obs == q && judge j' r
 
 def spec (evs : List Ev) (obs : List (List Nat)) : Bool :=
   evs.length == obs.length && judge ⟨[], []⟩ (evs.zip obs)
@@ -57,10 +63,24 @@ def judge2 (j : Judge) : List (Ev2 × List Nat) → Bool
   | (.ev (.errors ks), obs) :: r => obs.isEmpty && judge2 { j with unsupported := ks } r
   | (.ev (.announce w), obs) :: r =>
     match expected j (dictOf w) with
-    | (q, j', true) => obs == q && judge2 j' r
-    | (q, _, false) => q.isPrefixOf obs
+    | (q, j', _) => obs == q && judge2 j' r
 
 def spec2 (evs : List Ev2) (obs : List (List Nat)) : Bool :=
   evs.length == obs.length && judge2 ⟨[], []⟩ (evs.zip obs)
+
+/-- several devices on one queue: the judge keeps one record per device address; the frames
+observed on the shared queue after an event at device `a` must be the refreshes the statement
+prescribes for `a`'s announcement, each addressed TO THAT DEVICE -/
+def judgeSys (js : Nat → Judge) : List ((Nat × Ev2) × List Frame) → Bool
+  | [] => true
+  | ((a, .request k n), obs) :: r => obs == (List.replicate n k).map (⟨·, a⟩) && judgeSys js r
+  | ((a, .ev (.errors ks)), obs) :: r =>
+    obs.isEmpty && judgeSys (fun b => if b = a then { js a with unsupported := ks } else js b) r
+  | ((a, .ev (.announce w)), obs) :: r =>
+    match expected (js a) (dictOf w) with
+    | (q, j', _) => obs == q.map (⟨·, a⟩) && judgeSys (fun b => if b = a then j' else js b) r
+
+def specSys (evs : List (Nat × Ev2)) (obs : List (List Frame)) : Bool :=
+  evs.length == obs.length && judgeSys (fun _ => ⟨[], []⟩) (evs.zip obs)
 
 end PlumVerif.C15
